@@ -427,7 +427,7 @@ class SNAXGEMMXAccelerator(
             ops_to_add.extend(shift_bitlist)
 
             shift_vals = [shift_bitlist[-1].results[0] for _ in range(ceil(self.n / 4))]
-            mult_vals = (mult.result for _ in range(ceil(self.n / 4)))
+            mult_vals = [mult.result for _ in range(self.n)]
 
             loop_bound = prod(x.data for x in op.stride_patterns.data[0].upper_bounds)
             loop_bound = arith.ConstantOp.from_int_and_width(loop_bound, i32)
